@@ -250,6 +250,11 @@ def settings(seed, tier):
     simple('SpectralAnalyzer', 'complex', lambda x: na.SpectralAnalyzer(x, method=dict(this_method='welch', NFFT=32)), n=64, cplx=True)
     simple('SpectralAnalyzer', 'complex-1d', lambda x: na.SpectralAnalyzer(x), n=64, cplx=True, one_d=True)
     simple('HilbertAnalyzer', '1d', lambda x: na.HilbertAnalyzer(x), one_d=True)
+    # complex-valued recordings for the coherence family: the spectra are two-sided there, so anything derived from the
+    # method dictionary alone (a one-sided grid, a bin count) differs from what the estimator returns (wave 9, C13-18)
+    simple('CoherenceAnalyzer', 'complex-welch32', lambda x: na.CoherenceAnalyzer(x, method=dict(this_method='welch', NFFT=32, n_overlap=16)), cplx=True)
+    simple('CoherenceAnalyzer', 'complex-default', lambda x: na.CoherenceAnalyzer(x), n=160, cplx=True)
+    simple('SparseCoherenceAnalyzer', 'complex-ij', lambda x: na.SparseCoherenceAnalyzer(x, ij=[(0, 1), (1, 2)], method=dict(this_method='welch', NFFT=32, n_overlap=16)), cplx=True)
     simple('CorrelationAnalyzer', 'complex', lambda x: na.CorrelationAnalyzer(x), n=32, cplx=True)
     simple('NormalizationAnalyzer', 'complex', lambda x: na.NormalizationAnalyzer(x), n=32, cplx=True)
     simple('MTCoherenceAnalyzer', 'adaptive', lambda x: na.MTCoherenceAnalyzer(x), n=64)
